@@ -4,6 +4,10 @@ import vlib, flow
 
 H = os.path.join(vlib.ROOT, 'harness/kernel/device/video/console')
 vlib.register_const_dump('kernel', 'device/video/console', os.path.join(H, 'zz_verif_consts_test.go'))
+# the translation of vga_text.go (Gen/Trans_console_vga.v) compares with console.Characters, which the tty constants dump provides
+vlib.register_const_dump('kernel', 'device/tty', os.path.join(vlib.ROOT, 'harness/kernel/device/tty/zz_verif_consts_test.go'))
+import gen_trans
+gen_trans.register('console_vga.json')   # Go -> Gallina translation of VgaTextConsole (used by Console/VgaTrans.v)
 
 M32 = (1 << 32) - 1
 
@@ -185,7 +189,8 @@ def gen_vesa(rng):
 
 class C19(flow.Spec):
     prop = 'C19'
-    props_files = ['theories/Props/C19.v', 'theories/Props/C19_examples.v']
+    props_files = ['theories/Props/C19.v', 'theories/Props/C19_examples.v',
+                   'theories/Props/C19_vga_trans.v', 'theories/Props/C19_vga_trans_examples.v']
     model_targets = ['theories/Console/Run.vo']
     pkg = 'device/video/console'
     harness = [os.path.join(H, 'zz_verif_c19_test.go'), os.path.join(H, 'zz_verif_c19_vesa_test.go'), os.path.join(H, 'zz_verif_consts_test.go')]
